@@ -270,3 +270,22 @@ MANIFEST_TEXT['C12'] = dict(
                'for the modelled module shapes; all set iteration orders (rotation/reversal family) for hash-seed independence.',
     level_note='Trusted: CrossHair/z3. The invariant describing reachable states is part of the harness (too weak -> false alarms, never missed leaks within it).')
 _finalise()
+
+PROPS['C17'] = dict(
+    modules=['harness.c17_relax'], level='other',
+    files=['pysmi/parser/smi.py', 'pysmi/lexer/smi.py', 'pysmi/parser/dialect.py'],
+    explanation=XH + '. C17: (1) z3 Fixedpoint/Datalog simulation between the real LALR tables of dialect pairs - acceptance and reduction sequence '
+                'preserved for token sequences of ANY length; (2) differential parsing of sentence families under two real parsers; (3) each documented '
+                'breakage at a symbolic position vs its corrected sentence; (4) lexer tables, unknown options.',
+    functions=['LALR action/goto/production tables built by ply.yacc from the p_* docstrings', 'ply.yacc.LRParser.parse + p_* actions incl. every relaxed override',
+               'pysmi.parser.smi.parserFactory', 'pysmi.lexer.smi.lexerFactory'],
+    stubs=['FakeLexer'], bounds='LR: unbounded length, pairs listed per obligation; differential: family sentences with lists <=3',
+    outside=['random option subsets beyond the enumerated pairs', 'sentence shapes beyond the families for the differential part',
+             'texts using a word the larger dialect reserves (lexer-level difference, excluded by the property)'],
+    assumptions=['PLY\'s LR driver is the standard one'])
+MANIFEST_TEXT['C17'] = dict(
+    technique='z3 Fixedpoint (Datalog) simulation over the real LALR tables + CrossHair differential parsing under two dialect parsers', smt=True,
+    level_text='Table simulation decides inclusion with identical reductions for all input lengths on the additive pairs; restructuring options and '
+               'breakages by solver-exhaustive bounded differential.',
+    level_note='Trusted: z3 datalog engine, PLY table construction and driver, CrossHair.')
+_finalise()
